@@ -76,6 +76,15 @@ RouteTags(r) ==
                                                   LET RECURSIVE Sm(_) Sm(i) == IF i >= Len(u) THEN 0 ELSE Abs(u[i + 1][1] - u[i][1]) + Abs(u[i + 1][2] - u[i][2]) + Sm(i + 1) IN Sm(1)
                                     IN  ML(r.latA[c]) = ML(r.sym[t].lat[c])
                    THEN <<"symmetry-changes-route-cost:orthogonal:axes-swapped:only-the-bend-count-differs", r.sym[t].t>>
+              \* (tagged apart: orthogonal routing, a symmetry that swaps the axes, and some connector of the scene has a direction-restricted end --
+              \*  the x/y asymmetry of the search (F43) then also reaches unrestricted connectors of that scene, with different lengths)
+              ELSE IF r.mode = 1 /\ r.sym[t].t \in {1, 3, 6, 7} /\ \E c \in DOMAIN r.masks : r.masks[c] # <<15, 15>>
+                   THEN <<"symmetry-changes-route-cost:orthogonal:axes-swapped:scene-with-a-direction-restricted-end", r.sym[t].t>>
+              \* (tagged apart: polyline routing round buffered shapes with slanted sides: the mitred routing polygon of an acute corner reaches
+              \*  far beyond the buffer distance and its vertices are computed in floating point from absolute coordinates -- F23/F48)
+              ELSE IF r.mode = 0 /\ r.buf > 0 /\ \E sh \in DOMAIN r.shapes : Len(r.shapes[sh]) # 4 \/ \E j \in DOMAIN r.shapes[sh] :
+                                     LET a == r.shapes[sh][j]  b == r.shapes[sh][(j % Len(r.shapes[sh])) + 1] IN a[1] # b[1] /\ a[2] # b[2]
+                   THEN <<"symmetry-changes-route-cost:polyline:buffered-shape-with-slanted-sides", r.sym[t].t>>
               ELSE <<"symmetry-changes-route-cost", r.sym[t].t>>
           : t \in {t \in DOMAIN r.sym : ~r.sym[t].thrown /\
               \E c \in DOMAIN r.latA : Integral(r.latA[c]) /\ Integral(r.sym[t].lat[c]) /\ ~SameCost(r.latA[c], r.sym[t].lat[c], r.P)}}
@@ -84,7 +93,12 @@ VpscTags(r) == (IF r.A # r.B THEN {"repeat-solver-positions-differ"} ELSE {})
                \*  before its own fixpoint -- the early exit of F8/F54; where it stops depends on cost magnitudes and on the order of blocks, so
                \*  those records are tagged apart)
                \cup (IF ~r.shape \/ r.devE12 > 1000
-                     THEN {IF r.againE9 > 1 THEN "translated-solution-differs:incremental-solver-stops-before-its-fixpoint" ELSE "translated-solution-differs"} ELSE {})
+                     THEN {IF r.againE9 > 1 THEN "translated-solution-differs:incremental-solver-stops-before-its-fixpoint"
+                           \* (an infeasible system has no unique answer: which constraints are given up is the solver's choice)
+                           ELSE IF r.unsat THEN "translated-solution-differs:a-constraint-was-reported-unsatisfiable"
+                           ELSE "translated-solution-differs"} ELSE {})
+               \* (devSat: the placements returned by satisfy() calls of the history -- feasible, not optimal, hence not unique: kept apart)
+               \cup (IF r.shape /\ r.devE12 <= 1000 /\ r.devSatE12 > 1000 THEN {"translated-satisfy-result-differs"} ELSE {})
                \* the optimum is unique, so a relabelled and shuffled copy of the problem must give the same placement (1e-6)
                \cup (IF r.ordJudged /\ r.ordIncE9 > 1000
                      THEN {IF r.againE9 > 1 THEN "solution-depends-on-order:incremental-solver-stops-before-its-fixpoint" ELSE "solution-depends-on-order:incremental-solver"} ELSE {})
